@@ -43,6 +43,7 @@ type W struct {
 	Indef bool   // indefinite length marker (always refused by go-cose)
 	Raw   []byte // if non-nil: emitted verbatim instead of this node
 	NOver int    // added to the announced length / count (structural fault)
+	Fixed bool   // a COSE structure's own array: head stays shortest under randomize
 }
 
 func shortestHW(n uint64) int {
@@ -172,7 +173,7 @@ func (w *W) clone() *W {
 
 // randomise encoder choices below w: widths ≥ shortest, map key order
 func (w *W) randomize(r *rng, p int) {
-	if r.chance(p, 100) {
+	if !w.Fixed && r.chance(p, 100) {
 		min := 0
 		switch w.M {
 		case 0, 1, 6:
